@@ -325,3 +325,222 @@ Proof.
   - apply is_cell_spec. split; [apply align_divides; exact Hi|reflexivity].
   - pose proof (align_le b i Hi). pose proof (align_gt b i Hi). lia.
 Qed.
+
+(* ---------------------------------------------------------------------------------------------
+   Part E: EVM signing sessions - one per non-empty batch, named by message id and position only. *)
+
+From Coq Require Import DecimalString DecimalPos DecimalN.
+From SygmaV Require Lib.C14_Dec.
+
+Lemma nl_eqb_eq a b : nl_eqb a b = true <-> a = b.
+Proof.
+  revert b; induction a as [|x a IH]; intros [|y b]; cbn; split; intros H; try congruence; try reflexivity.
+  - apply andb_true_iff in H as [H1 H2]. apply N.eqb_eq in H1. apply IH in H2. congruence.
+  - inversion H; subst. apply andb_true_iff; split; [apply N.eqb_refl | apply IH; reflexivity].
+Qed.
+
+Lemma sl_eqb_eq a b : sl_eqb a b = true <-> a = b.
+Proof.
+  revert b; induction a as [|x a IH]; intros [|y b]; cbn; split; intros H; try congruence; try reflexivity.
+  - apply andb_true_iff in H as [H1 H2]. apply String.eqb_eq in H1. apply IH in H2. congruence.
+  - inversion H; subst. apply andb_true_iff; split; [apply String.eqb_refl | apply IH; reflexivity].
+Qed.
+
+Lemma nll_eqb_eq a b : nll_eqb a b = true <-> a = b.
+Proof.
+  revert b; induction a as [|x a IH]; intros [|y b]; cbn; split; intros H; try congruence; try reflexivity.
+  - apply andb_true_iff in H as [H1 H2]. apply nl_eqb_eq in H1. apply IH in H2. congruence.
+  - inversion H; subst. apply andb_true_iff; split; [apply nl_eqb_eq; reflexivity | apply IH; reflexivity].
+Qed.
+
+Lemma sess_eqb_eq a b : sess_eqb a b = true <-> a = b.
+Proof.
+  revert b; induction a as [|[m s] a IH]; intros [|[m' s'] b]; cbn; split; intros H; try congruence; try reflexivity.
+  - apply andb_true_iff in H as [H12 H3]. apply andb_true_iff in H12 as [H1 H2].
+    apply nl_eqb_eq in H1. apply sl_eqb_eq in H2. apply IH in H3. congruence.
+  - inversion H; subst. rewrite !andb_true_iff; repeat split;
+      [apply nl_eqb_eq | apply sl_eqb_eq | apply IH]; reflexivity.
+Qed.
+
+(* the judge accepts exactly the observations that equal the specification *)
+Lemma sess_ok_sound mid bs runs hashed :
+  sess_ok mid bs runs hashed = true ->
+  (forall r, In r runs -> r = evm_sessions mid bs) /\ (forall h, In h hashed -> h = evm_hashed bs).
+Proof.
+  unfold sess_ok; intros H. apply andb_true_iff in H as [H1 H2].
+  rewrite forallb_forall in H1, H2. split.
+  - intros r Hr. apply sess_eqb_eq, H1, Hr.
+  - intros h Hh. apply nll_eqb_eq, H2, Hh.
+Qed.
+
+(* ... hence any two observed schedules show the same sessions *)
+Lemma sess_ok_schedule_free mid bs runs hashed r1 r2 :
+  sess_ok mid bs runs hashed = true -> In r1 runs -> In r2 runs -> r1 = r2.
+Proof.
+  intros H H1 H2. destruct (sess_ok_sound _ _ _ _ H) as [A _].
+  rewrite (A _ H1), (A _ H2). reflexivity.
+Qed.
+
+Lemma sess_ok_model mid bs n m :
+  sess_ok mid bs (repeat (evm_sessions mid bs) n) (repeat (evm_hashed bs) m) = true.
+Proof.
+  unfold sess_ok. apply andb_true_iff; split; apply forallb_forall; intros x Hx;
+    apply repeat_spec in Hx; subst; [apply sess_eqb_eq | apply nll_eqb_eq]; reflexivity.
+Qed.
+
+(* the session of a batch is a function of the message id and the batch's position only *)
+Lemma evm_sessions_from_in mid pos bs ms sids :
+  In (ms, sids) (evm_sessions_from mid pos bs) <->
+  exists k, nth_error bs k = Some ms /\ ms <> [] /\ sids = [evm_sid mid (pos + N.of_nat k)%N].
+Proof.
+  revert pos; induction bs as [|b bs IH]; intros pos; cbn [evm_sessions_from].
+  - split; [intros [] | intros [k [Hk _]]; destruct k; discriminate].
+  - assert (Hrest : In (ms, sids) (evm_sessions_from mid (N.succ pos) bs) <->
+                    exists k, nth_error (b :: bs) (S k) = Some ms /\ ms <> [] /\
+                              sids = [evm_sid mid (pos + N.of_nat (S k))%N]).
+    { rewrite IH. split; intros [k [A [B C]]]; exists k; cbn [nth_error] in *; repeat split; auto;
+        subst sids; do 2 f_equal; lia. }
+    destruct b as [|x b].
+    + rewrite Hrest. split.
+      * intros [k H]. exists (S k). exact H.
+      * intros [[|k] [A [B C]]]; [cbn in A; inversion A; subst; congruence | exists k; auto].
+    + cbn [In]. rewrite Hrest. split.
+      * intros [H | [k H]].
+        -- inversion H; subst. exists 0%nat. cbn. repeat split; [discriminate | do 2 f_equal; lia].
+        -- exists (S k). exact H.
+      * intros [[|k] [A [B C]]].
+        -- left. cbn in A. inversion A; subst. do 3 f_equal. lia.
+        -- right. exists k. auto.
+Qed.
+
+Lemma evm_sessions_position mid bs ms sids :
+  In (ms, sids) (evm_sessions mid bs) <->
+  exists k, nth_error bs k = Some ms /\ ms <> [] /\ sids = [evm_sid mid (N.of_nat k)].
+Proof. unfold evm_sessions. rewrite evm_sessions_from_in. reflexivity. Qed.
+
+(* distinct positions give distinct session ids *)
+Lemma evm_sid_inj mid i j : evm_sid mid i = evm_sid mid j -> i = j.
+Proof.
+  unfold evm_sid; intros H.
+  apply C14_Dec.append_inj_l in H. unfold dash in H. cbn in H. inversion H as [H'].
+  apply C14_Dec.dec_inj. exact H'.
+Qed.
+
+(* evm_sid is the session id of the identifier theorems (C19_same_deposit_same_ids) *)
+Lemma evm_sid_is_session_id mid k : evm_sid mid k = session_id_evm mid (Z.of_N k).
+Proof.
+  unfold evm_sid, session_id_evm. do 2 f_equal.
+  unfold C14_Dec.dec, dec. destruct k as [|p]; [reflexivity|].
+  cbn [Z.of_N Z.to_int N.to_uint NilZero.string_of_int NilZero.string_of_uint].
+  pose proof (DecimalPos.Unsigned.to_uint_nonnil p) as Hn.
+  destruct (Pos.to_uint p); [congruence | reflexivity..].
+Qed.
+
+(* what is hashed: every non-empty batch, nothing else *)
+Lemma evm_hashed_in bs ms : In ms (evm_hashed bs) <-> In ms bs /\ ms <> [].
+Proof.
+  unfold evm_hashed. rewrite filter_In. split; intros [A B]; split; auto; destruct ms; congruence.
+Qed.
+
+(* ---------------------------------------------------------------------------------------------
+   Part F: Bitcoin executor - one group per resource: that resource's proposals in delivery order. *)
+
+Section GroupMore.
+  Context {M : Type}.
+  Variable dest : M -> N.
+
+  Lemma upd_keys (g : list (N * list M)) m k : In k (map fst (upd dest g m)) -> In k (map fst g) \/ k = dest m.
+  Proof.
+    induction g as [|[d ms] r IH]; cbn.
+    - intros [H|[]]; right; congruence.
+    - destruct (N.eqb d (dest m)); cbn; intros [H|H]; auto.
+      destruct (IH H); auto.
+  Qed.
+
+  Definition ginv (g : list (N * list M)) : Prop :=
+    NoDup (map fst g) /\ Forall (fun p => snd p <> []) g.
+
+  Lemma upd_ginv g m : ginv g -> ginv (upd dest g m).
+  Proof.
+    unfold ginv. induction g as [|[d ms] r IH]; cbn; intros [Hn Hf].
+    - split; [constructor; [intros []|constructor] | constructor; [cbn; discriminate|constructor]].
+    - inversion Hn as [|? ? Hnotin Hn']; subst. inversion Hf as [|? ? Hne Hf']; subst.
+      destruct (N.eqb_spec d (dest m)) as [->|Hd]; cbn.
+      + split; [constructor; assumption|]. constructor; [cbn; destruct ms; discriminate | assumption].
+      + destruct (IH (conj Hn' Hf')) as [A B]. split.
+        * constructor; [|exact A]. intros Hin. apply upd_keys in Hin as [Hin|Hin]; [auto|congruence].
+        * constructor; assumption.
+  Qed.
+
+  Lemma group_ginv msgs : ginv (group dest msgs).
+  Proof.
+    unfold group. assert (H0 : ginv ([] : list (N * list M))) by (split; constructor).
+    revert H0. generalize ([] : list (N * list M)) as g.
+    induction msgs as [|m r IH]; intros g Hg; cbn; [exact Hg|]. apply IH, upd_ginv, Hg.
+  Qed.
+
+  Lemma lookup_in (g : list (N * list M)) d ms : NoDup (map fst g) -> In (d, ms) g -> lookup d g = ms.
+  Proof.
+    induction g as [|[d' ms'] r IH]; cbn; intros Hn H; [contradiction|]. destruct H as [H|H].
+    - inversion H; subst. rewrite N.eqb_refl. reflexivity.
+    - inversion Hn as [|? ? Hnotin Hn']; subst.
+      destruct (N.eqb_spec d' d) as [->|Hd].
+      + exfalso. apply Hnotin. apply (in_map fst) in H. exact H.
+      + apply IH; assumption.
+  Qed.
+
+  (* every group of the map is exactly its key's messages, in order, and is not empty; keys distinct *)
+  Lemma group_members d ms msgs :
+    In (d, ms) (group dest msgs) -> ms = for_dest dest d msgs /\ ms <> [].
+  Proof.
+    intros Hin. destruct (group_ginv msgs) as [Hn Hf]. split.
+    - rewrite <- (grouping_order_free dest d msgs). symmetry. apply lookup_in; assumption.
+    - rewrite Forall_forall in Hf. apply (Hf _ Hin).
+  Qed.
+
+  Lemma group_keys_nodup msgs : NoDup (map fst (group dest msgs)).
+  Proof. apply group_ginv. Qed.
+End GroupMore.
+
+Lemma bgroups_eqb_eq a b : bgroups_eqb a b = true <-> a = b.
+Proof.
+  revert b; induction a as [|[m r] a IH]; intros [|[m' r'] b]; cbn; split; intros H; try congruence; try reflexivity.
+  - apply andb_true_iff in H as [H12 H3]. apply andb_true_iff in H12 as [H1 H2].
+    apply nl_eqb_eq in H1. apply IH in H3. subst.
+    destruct r as [x|], r' as [y|]; try discriminate; [apply N.eqb_eq in H2; subst|]; reflexivity.
+  - inversion H; subst. rewrite !andb_true_iff; repeat split;
+      [apply nl_eqb_eq; reflexivity | destruct r'; [apply N.eqb_refl|reflexivity] | apply IH; reflexivity].
+Qed.
+
+(* what every goroutine of the model works on: a resource r together with exactly r's proposals in
+   delivery order; every resource at most once *)
+Lemma bexec_spec_in props ms r :
+  In (ms, r) (bexec_spec props) ->
+  exists rid, r = Some rid /\ ms = map fst (for_dest (@snd N N) rid props) /\ ms <> [].
+Proof.
+  unfold bexec_spec. rewrite in_map_iff. intros [[d g] [Heq Hin]]. cbn in Heq. inversion Heq; subst.
+  exists d. destruct (group_members _ _ _ _ Hin) as [A B]. split; [reflexivity|]. split.
+  - rewrite A. reflexivity.
+  - destruct g; [congruence | discriminate].
+Qed.
+
+Lemma bexec_spec_resources_distinct props :
+  NoDup (map snd (bexec_spec props)).
+Proof.
+  unfold bexec_spec. rewrite map_map. cbn.
+  pose proof (group_keys_nodup (@snd N N) props) as Hn.
+  rewrite <- (map_map fst Some). apply FinFun.Injective_map_NoDup; [|exact Hn].
+  intros x y Hxy. inversion Hxy. reflexivity.
+Qed.
+
+Lemma bexec_ok_sound props runs :
+  bexec_ok props runs = true -> forall r, In r runs -> r = bexec_spec props.
+Proof.
+  unfold bexec_ok. rewrite forallb_forall. intros H r Hr. apply bgroups_eqb_eq, H, Hr.
+Qed.
+
+Lemma bexec_ok_model props n : bexec_ok props (repeat (bexec_spec props) n) = true.
+Proof.
+  unfold bexec_ok. apply forallb_forall. intros x Hx. apply repeat_spec in Hx. subst.
+  apply bgroups_eqb_eq. reflexivity.
+Qed.
